@@ -77,6 +77,7 @@ fn main() {
         "apisurface" => apidrv::main(rest),
         "hotkey" => apidrv::hotkey(rest),
         "renewstory" => seqdrv::renewstory(rest),
+        "ackstory" => seqdrv::ackstory(rest),
         "damage" => damagedrv::main(rest),
         "clocksat" => seqdrv::clocksat(rest),
         "faultstory" => seqdrv::faultstory(rest),
